@@ -107,6 +107,36 @@ PROPS = {
         note="errno is compared only where the statement/header fix it; double->string->double uses glibc strtod on both sides",
         assumptions=COMMON_ASSUMPTIONS,
     ),
+    "C19": dict(
+        level="model_checking",
+        runs=[dict(harness="c19", variant="san", shards=16)],
+        deadline=dict(quick=240, thorough=1500),
+        rule="BFS over histories of printbuf_memappend / memappend_fast / memset / sprintbuf / reset whose size and offset arguments are taken relative to the "
+             "current (bpos,size): room-2..room+1, 2*size, -1, INT_MAX-bpos-{1,0,9}; offsets -2,-1,0,bpos-1..bpos+1,size-1,size,size+3 x lengths 0,1,size-off-1..+1, "
+             "INT_MAX-off(+1), -1; formatted output of 0,5,127,128,129,300 bytes; states merged on (bpos,size,contents); non-trivial = distinct state",
+        bound=dict(quick="depth 4, buffer growth capped at 4096", thorough="depth 5"),
+        states_stat="states", transitions_stat="transitions",
+        technique="explicit-state BFS of operation histories on the real printbuf (ASan build), byte-array reference model checked after every transition",
+        claim="after every transition of every history to the depth bound the buffer's length and bytes equal a plain byte-array model, appended text is NUL-terminated "
+              "inside the allocation, refused requests leave it unchanged; ASan flags any write outside the allocation",
+        note="histories are replayed on fresh buffers; the allocator seam refuses requests >= 256 MiB so INT_MAX-adjacent sizes exercise the guards without allocating",
+        assumptions=COMMON_ASSUMPTIONS,
+    ),
+    "C07": dict(
+        level="model_checking",
+        runs=[dict(harness="c07", variant="san", shards=16)],
+        deadline=dict(quick=240, thorough=1800),
+        rule="BFS over histories on arrays created with capacity 0,1,2,default: add, put_idx/insert_idx at {0,len-1,len,len+1,len+3,SIZE_MAX-1,SIZE_MAX} with an element or NULL, "
+             "del_idx(i,n) with i in {0,len-1,len,len+1,SIZE_MAX} and n in {0,1,len-i,len-i+1,SIZE_MAX}, shrink(0,1,len); get_idx over 0..len+2 after each step; states merged on "
+             "(length, capacity, null pattern); plus sort/bsearch on every array over {0,1,2} up to the length bound; non-trivial = distinct state / distinct sorted input",
+        bound=dict(quick="depth 6 (creation + 5 operations), length capped at 13; sort inputs <= 6 elements", thorough="depth 8; sort inputs <= 7 elements"),
+        states_stat="states", transitions_stat="transitions",
+        technique="explicit-state BFS of operation histories on the real array (ASan build, poison-filled allocator), list reference model and exact release-set oracle",
+        claim="after every transition length, element identity at every index, NULL past the end, return code and the exact set of elements destroyed equal a plain list model; "
+              "refused operations change nothing and leave the value with the caller; at the end every element died exactly once and nothing stays allocated",
+        note="element destruction observed through json_object_set_userdata delete callbacks; capacity read from struct array_list for merging only",
+        assumptions=COMMON_ASSUMPTIONS,
+    ),
 }
 
 NOT_APPLICABLE = {}
